@@ -407,6 +407,14 @@ func (c caseSpec) evalVS(p proxySpec, port int, req request, rd reading) verdict
 // VirtualServices define the same host).
 func (c caseSpec) evalVSAll(p proxySpec, port int, req request, rd reading) []verdict {
 	host := strings.ToLower(stripPort(req.Authority))
+	if p.Kind == "gateway" {
+		// a gateway proxy may serve several Gateway resources: the request belongs to the one whose
+		// server admits the host, and `gateways` lists are matched against that name
+		p.Gateway = c.gatewayFor(host)
+		if p.Gateway == "" {
+			return []verdict{{Decision: decNone, Why: "none(no gateway server for the host)"}}
+		}
+	}
 	ports := c.servicePorts()
 	_, inRegistry := ports[host]
 
